@@ -195,7 +195,7 @@ def cases(ctx):
     thorough = ctx.thorough
     # (a) leaves x length-byte forms
     for code in gen.rotate(gen.LEAF_CODES, ctx.seed):
-        counts = gen.boundary_counts(code, (0xFF, 0xFFFF) if thorough else (0xFF,))
+        counts = gen.boundary_counts(code, (0xFF, 0xFFFF))
         for d in gen.leaf_family(code, counts):
             yield {"kind": "nc", "desc": d}
     for code in ("A", "J", "B"):
